@@ -61,21 +61,19 @@ func NewValidatorSet(vals []*Validator) *ValidatorSet {
 
 // TODO: mind the overflow when times and votingPower shares too large.
 func (valSet *ValidatorSet) IncrementAccum(times int64) {
-	// Add VotingPower * times to each validator and order into heap.
-	validatorsHeap := gcmn.NewHeap()
-	for _, val := range valSet.Validators {
-		val.Accum += int64(val.VotingPower) * int64(times) // TODO: mind overflow
-		validatorsHeap.Push(val, accumComparable(val.Accum))
-	}
-
-	// Decrement the validator with most accum, times times.
-	for i := 0; i < int(times); i++ {
-		mostest := validatorsHeap.Peek().(*Validator)
-		if i == int(times-1) {
-			valSet.proposer = mostest
+	// One round at a time: add VotingPower to each validator, take the one with most accum as
+	// proposer and decrement it by the total. IncrementAccum(k) must select exactly what k calls
+	// of IncrementAccum(1) select, or a node that skips rounds computes other proposers than a
+	// node that went through every round.
+	for i := int64(0); i < times; i++ {
+		validatorsHeap := gcmn.NewHeap()
+		for _, val := range valSet.Validators {
+			val.Accum += int64(val.VotingPower) // TODO: mind overflow
+			validatorsHeap.Push(val, accumComparable(val.Accum))
 		}
+		mostest := validatorsHeap.Peek().(*Validator)
+		valSet.proposer = mostest
 		mostest.Accum -= int64(valSet.TotalVotingPower())
-		validatorsHeap.Update(mostest, accumComparable(mostest.Accum))
 	}
 }
 
